@@ -4,6 +4,9 @@ use crate::run::{run, RunOpts, RunResult};
 use crate::scenario::*;
 
 pub mod c01;
+pub mod c09;
+pub mod c10;
+pub mod c19;
 
 #[derive(Clone, Debug)]
 pub struct Violation {
@@ -144,6 +147,88 @@ pub fn evaluate(prop: &str, sc: &Scenario) -> Eval {
             ev.violations = c01::check(sc, &res);
             let ok = res.dumps.first().map(|d| d.result.is_ok()).unwrap_or(false);
             ev.nontrivial = ok && (sc.tags.len() > 1 || !isig.is_empty());
+            ev.signature = format!("{}{}", base_signature(sc), isig);
+        }
+        "C09" => {
+            let res = run(sc, &RunOpts::default());
+            let isig = account(&mut ev, sc, &res);
+            let mut faulted = false;
+            let mut offset = false;
+            if let Workload::Dump(p) = &sc.workload {
+                faulted = p.dests.iter().any(|d| !d.fx.is_empty());
+                offset = p.dests.iter().any(|d| d.start != 0 || d.pre_len != 0);
+                if faulted {
+                    let mut twin = sc.clone();
+                    if let Workload::Dump(tp) = &mut twin.workload {
+                        for d in tp.dests.iter_mut() {
+                            d.fx.clear();
+                        }
+                    }
+                    let tres = run(&twin, &RunOpts::default());
+                    ev.runs += 1;
+                    if let (Some(a), Some(b)) = (res.dumps.first(), tres.dumps.first()) {
+                        ev.violations = c09::check_pair(a, b);
+                        ev.violations.extend(c09::check_clean(b));
+                    }
+                } else if let Some(a) = res.dumps.first() {
+                    ev.violations = c09::check_clean(a);
+                }
+            }
+            if let Some(d) = &res.dir {
+                ev.violations.extend(crate::workloads::check_dirsection(sc, d));
+                ev.count("dirsection_sequences", 1);
+                faulted = !d.dest.fx_fired.is_empty();
+                offset = d.dest.start != 0;
+                ev.nontrivial = true;
+            }
+            let fired = res.dumps.first().map(|d| !d.dest.fx_fired.is_empty()).unwrap_or(false);
+            ev.nontrivial |= fired || offset;
+            let _ = faulted;
+            ev.signature = format!("{}{}", base_signature(sc), isig);
+        }
+        "C10" => {
+            let res = run(sc, &RunOpts::default());
+            let isig = account(&mut ev, sc, &res);
+            let mut nops = 0u32;
+            if let Some(d) = res.dumps.first() {
+                let (vs, checked) = c10::check_all_boundaries(&d.dest);
+                ev.violations = vs;
+                ev.count("crash_points_checked", checked as u64);
+                nops = d.dest.ops.len() as u32;
+            }
+            // a hard error at every destination call in turn
+            let stride = if std::env::var("VERIF_TIER").map(|t| t == "thorough").unwrap_or(false) { 1 } else { 3 };
+            let mut k = (sc.seed % stride as u64) as u32;
+            while k < nops {
+                let mut f = sc.clone();
+                if let Workload::Dump(p) = &mut f.workload {
+                    p.dests[0].fx = vec![(k, DestFx::Error(crate::kernel::ENOSPC))];
+                }
+                let fres = run(&f, &RunOpts::default());
+                ev.runs += 1;
+                ev.count("fault dest_error", 1);
+                if let Some(d) = fres.dumps.first() {
+                    let n = d.dest.ops.len() as u32;
+                    let vs = c10::check_snapshot(&d.dest, n, &format!("after a hard error at destination call {}", k));
+                    if !vs.is_empty() && ev.violations.len() < 8 {
+                        ev.violations.extend(vs);
+                    }
+                    if d.result.is_ok() {
+                        ev.violations.push(v("C10", "error-swallowed", format!("hard error at destination call {} but the request reported success", k)));
+                    }
+                }
+                k += stride;
+            }
+            ev.nontrivial = nops >= 20;
+            ev.signature = format!("{}{}ops{}", base_signature(sc), isig, nops / 4);
+        }
+        "C19" => {
+            let res = run(sc, &RunOpts { keep_before: true, ..Default::default() });
+            let isig = account(&mut ev, sc, &res);
+            let (vs, extra) = c19::check(sc, &res);
+            ev.runs += extra;
+            ev.violations = vs;
+            ev.nontrivial = res.dumps.len() >= 2 && res.dumps.iter().filter(|d| d.result.is_ok()).count() >= 2;
             ev.signature = format!("{}{}", base_signature(sc), isig);
         }
         _ => {
